@@ -1,4 +1,5 @@
 CONSTANTS
+  DirLen = 5
   MaxLen = 5
 INIT Init
 NEXT Next
